@@ -1,6 +1,5 @@
 """Zero pad and crop data tensor."""
 
-import math
 from collections.abc import Sequence
 
 import torch
@@ -67,12 +66,12 @@ def zero_pad_or_crop(
     npad = []
     for old, new in zip(data.shape, new_shape, strict=True):
         diff = new - old
-        after = math.trunc(diff / 2)
-        before = diff - after
-        npad.append(before)
+        before = new // 2 - old // 2  # the center sample (index n//2) stays the center sample
+        after = diff - before
         npad.append(after)
+        npad.append(before)
 
     if any(npad):
-        # F.pad expects paddings in reversed order
+        # F.pad expects paddings in reversed order (last dimension first, each as before, after)
         data = F.pad(data, npad[::-1])
     return data
